@@ -220,8 +220,17 @@ func RunSeq(r *vres.Report, keyPrefix string, body func(s *vrt.Sched)) *vrt.Sche
 // runtime's own in the recorded stack) belongs to harness or shim code rather than to Helios.
 func panicFromHarness(stack string) bool {
 	lines := strings.Split(stack, "\n")
+	// a panic that was recovered and raised again on its way up (circuitbreaker.Execute does
+	// that, and so does the kit's stand-in for net/http's connection loop) shows one panic(
+	// frame per raise; the one that matters is the original, the outermost in the listing
+	first := 0
+	for i, l := range lines {
+		if strings.HasPrefix(l, "panic(") {
+			first = i
+		}
+	}
 	seenPanic := false
-	for i := 0; i < len(lines); i++ {
+	for i := first; i < len(lines); i++ {
 		l := lines[i]
 		if strings.HasPrefix(l, "\t") {
 			continue
